@@ -375,6 +375,8 @@ type world struct {
 	qMem    sorted.KeyValue
 	dst2Mem *memory.Storage // twin handler's destination (family "twin")
 	q2Mem   sorted.KeyValue // twin handler's queue
+	// otherMem: the second write backend of the replica in front of the source (scenario.Via)
+	otherMem *memory.Storage
 	live    *liveKV         // qMem when the queue is a file-backed KV that is closed and re-opened at every restart
 	dir     string          // scratch directory of the file-backed queue
 	eff     *effLog
@@ -400,6 +402,8 @@ type incarnation struct {
 	queue    *recKV
 	sh       *server.SyncHandler
 	sh2      *server.SyncHandler // twin: a second handler on the same source object (own destination and queue)
+	// front: where the client uploads (scenario.Via); nil = the source itself
+	front blobserver.BlobReceiver
 	err      error               // constructor error
 	// harnessErr: err is not the handler's refusal but a failure of the harness' own set-up
 	harnessErr bool
@@ -713,6 +717,9 @@ func (w *world) start(spec incSpec) *incarnation {
 	if spec.FullSync {
 		conf["fullSyncOnStart"] = true
 	}
+	if spec.BlockFullSync {
+		conf["blockingFullSyncOnStart"] = true
+	}
 	// The constructor runs in a goroutine of its own: the goroutines it starts name it as
 	// their creator, which is how a goroutine dump is attributed to this incarnation.
 	type built struct {
@@ -737,6 +744,39 @@ func (w *world) start(spec incSpec) *incarnation {
 		return inc
 	}
 	inc.sh = sh
+	if w.sc.Via != "" {
+		// the client does not talk to the source: its uploads arrive through a replica set of which
+		// the source is one write backend (and, for "cond", through the schema router in front of it)
+		if w.otherMem == nil {
+			w.otherMem = &memory.Storage{}
+		}
+		ld.Set("/other/", w.otherMem)
+		backends := []any{"/src/", "/other/"}
+		if w.sc.Via == "replica+sync" {
+			// the sync handler itself as a further write backend (replica accepts "an http Handler
+			// that also supports being a target (e.g. a sync handler)"): its ReceiveBlob enqueues
+			ld.Set("/sync/", sh)
+			backends = append(backends, "/sync/")
+		}
+		repl, err := blobserver.CreateStorage("replica", ld, jsonconfig.Obj{"backends": backends})
+		if err != nil {
+			inc.err, inc.harnessErr = fmt.Errorf("replica in front of the source: %w", err), true
+			return inc
+		}
+		inc.front = repl
+		if w.sc.Via == "cond" {
+			ld.Set("/repl/", repl)
+			cnd, err := blobserver.CreateStorage("cond", ld, jsonconfig.Obj{
+				"write": map[string]any{"if": "isSchema", "then": "/repl/", "else": "/src/"},
+				"read":  "/src/",
+			})
+			if err != nil {
+				inc.err, inc.harnessErr = fmt.Errorf("cond in front of the source: %w", err), true
+				return inc
+			}
+			inc.front = cnd
+		}
+	}
 	if w.sc.Twin {
 		// a second sync handler over the very same source object (one hub, two receive hooks)
 		dst2 := &recStorage{layer: "dst2", inc: inc.n, rec: w.rec,
@@ -761,14 +801,18 @@ func (w *world) start(spec incSpec) *incarnation {
 }
 
 // upload sends one blob through blobserver.Receive on the incarnation's source
-// (so that the hub hook of this incarnation's handler runs) and records the
-// client-visible outcome.
+// (so that the hub hook of this incarnation's handler runs), or on the replica / cond
+// storage in front of it (scenario.Via), and records the client-visible outcome.
 func (w *world) upload(inc *incarnation, b sto.Blob) error {
 	w.bmu.Lock()
 	w.blobs[b.Ref.String()] = b
 	w.bmu.Unlock()
 	e := w.rec.begin(inc.n, "client", "Upload", b.Ref.String())
-	sb, err := blobserver.Receive(ctxbg, inc.src, b.Ref, bytes.NewReader(b.Data))
+	var front blobserver.BlobReceiver = inc.src
+	if inc.front != nil {
+		front = inc.front
+	}
+	sb, err := blobserver.Receive(ctxbg, front, b.Ref, bytes.NewReader(b.Data))
 	w.rec.end(e, int64(sb.Size), err)
 	return err
 }
